@@ -155,6 +155,10 @@ def run_property(pid, tier="quick", seed=0, update=False):
         else:
             (alarm_failed if pid in ob.alarm else support_failed).append((ob, [k.get("reason", "")]))
 
+    for bn in spec.get("bounded_search", []):
+        if search_result is not None or True:
+            bounded.append({"obligation": bn["obligation"], "bound": bn["bound"], "backend": "exhaustive enumeration on the real code (replay crate)",
+                            "status": "pending"})
     if update:
         with open(os.path.join(ROOT, "contracts", "OBLIGATIONS.json"), "w") as f:
             json.dump(committed_obl, f, indent=1, sort_keys=True)
@@ -215,6 +219,11 @@ def run_property(pid, tier="quick", seed=0, update=False):
         undecided.append("proof script no longer matches the code; no alarm-raising clause refuted and no failing input found: "
                          + "; ".join([s.split("\n")[0] + " " + (s.split("\n")[1].strip() if "\n" in s else "") for s in scaffold[:3]]
                                      + [o.name for (o, _) in support_failed[:3]]))
+    for b in bounded:
+        if b.get("status") == "pending":
+            fails = [f for f in found if f.get("clause") == b["obligation"]]
+            b["status"] = ("failed" if fails else "success") if search_result and not search_result.get("error") else "not run"
+            b["evaluations"] = (search_result or {}).get("evaluations")
     if exit_code == 0 and undecided:
         exit_code = 2
     out_lines = kf_lines + out_lines
